@@ -197,6 +197,8 @@ class Analyzer:
         self.fail_value = {f: self.failure_kind(self.fns[f]) for f in self.subparsers}
         self.succ_adv = {f: True for f in self.subparsers}
         self.guarded = sorted(f for f, d in self.fns.items() if self.is_depth_guarded(d))
+        # call edges that are NOT inside a depth-guarded region of their function
+        self.unguarded_calls = {f: sorted(self.unguarded_edges(d)) for f, d in self.fns.items()}
 
     # -- function classification
     def find_token_predicates(self):
@@ -247,6 +249,70 @@ class Analyzer:
                         (key_of(kids(c)[0]) or '').endswith('recursion_depth') and any(m.get('kind') == 'ReturnStmt' for m in walk(kids(n)[1])):
                     chk = True
         return inc and chk
+
+    def unguarded_edges(self, d):
+        """callees (functions of this file) called from a place that is not preceded, in an enclosing statement list, by
+        `recursion_depth++` + `if (recursion_depth > bound) return` (and not yet followed by `recursion_depth--`)."""
+        out = set()
+
+        def is_inc(n):
+            n = strip(n)
+            return n is not None and n.get('kind') == 'UnaryOperator' and n.get('opcode') == '++' and (key_of(kids(n)[0]) or '').endswith('recursion_depth')
+
+        def is_dec(n):
+            n = strip(n)
+            return n is not None and n.get('kind') == 'UnaryOperator' and n.get('opcode') == '--' and (key_of(kids(n)[0]) or '').endswith('recursion_depth')
+
+        def is_check(n):
+            if n.get('kind') != 'IfStmt':
+                return False
+            c = strip(kids(n)[0])
+            if c is None:
+                return False
+            direct = c.get('kind') == 'BinaryOperator' and c.get('opcode') in ('>', '>=') and (key_of(kids(c)[0]) or '').endswith('recursion_depth')
+            return direct and any(m.get('kind') == 'ReturnStmt' for m in walk(kids(n)[1]))
+
+        def guard_call(n):
+            """`if (!enter_nested(p, ..)) return ..;` where enter_nested is itself an increment+check function"""
+            if n.get('kind') != 'IfStmt':
+                return False
+            c = strip(kids(n)[0])
+            if c is not None and c.get('kind') == 'UnaryOperator' and c.get('opcode') == '!':
+                f = callee(kids(c)[0])
+                if f in self.fns and self.is_depth_guarded(self.fns[f]) and any(m.get('kind') == 'ReturnStmt' for m in walk(kids(n)[1])):
+                    return True
+            return False
+
+        def visit(n, guarded):
+            k = n.get('kind')
+            if k == 'CompoundStmt':
+                g = guarded
+                pending_inc = False
+                for c in kids(n):
+                    if is_inc(c):
+                        pending_inc = True
+                        continue
+                    if pending_inc and is_check(c):
+                        g = True; pending_inc = False
+                        visit(c, guarded)
+                        continue
+                    if guard_call(c):
+                        visit(c, guarded)
+                        g = True
+                        continue
+                    if is_dec(c):
+                        g = guarded
+                        continue
+                    visit(c, g)
+                return
+            f = callee(n)
+            if f in self.fns and not guarded:
+                out.add(f)
+            for c in kids(n):
+                visit(c, guarded)
+        body = [c for c in kids(d) if c.get('kind') == 'CompoundStmt'][0]
+        visit(body, False)
+        return out
 
     # -- expressions: returns list of (value, state); value in True/False/None or ('RES', fn, 'succ'|'fail') or 'CUR' or ('TT', aliaskey)
     def ev(self, n, s):
@@ -794,9 +860,43 @@ def coq_str(s):
     return '"' + s.replace('"', '""') + '"'
 
 
+def listed_findings():
+    """open C09 findings that name a loop (`loop`: [fn, ord]) or recursion cycle (`cycle_fns`: [...]): the theorems state that
+    the flagged loops / unguarded cycles of the current source are EXACTLY these (so closing a finding strengthens the theorem,
+    and a new non-progressing loop breaks it)"""
+    path = os.path.join(VERIF, 'known_findings.d', 'C09.json')
+    loops, cyc = [], []
+    if os.path.exists(path):
+        for e in json.load(open(path)):
+            if e.get('property') == 'C09' and e.get('status') == 'open':
+                if e.get('loop'):
+                    loops.append((e['loop'][0], int(e['loop'][1])))
+                for f in e.get('cycle_fns', []) or []:
+                    cyc.append(f)
+    return loops, cyc
+
+
+def _digest(paths):
+    import hashlib
+    h = hashlib.sha256()
+    for p in paths:
+        h.update(p.encode()); h.update(open(p, 'rb').read() if os.path.exists(p) else b'-')
+    return h.hexdigest()
+
+
 def generate(b):
+    src = os.path.join(REPO, 'src', 'parser.c')
+    out = os.path.join(GEN_DIR, 'ParserLoops.v')
+    side_path = os.path.join(VERIF, 'build', 'gen', 'parserloops.json')
+    hdrs = [os.path.join(REPO, 'src', 'nanolang.h'), os.path.join(REPO, 'src', 'generated', 'compiler_schema.h')]
+    key = _digest([src] + hdrs + [os.path.abspath(__file__), os.path.join(VERIF, 'tools', 'gen', 'test_parserloops.c'),
+                                  os.path.join(VERIF, 'known_findings.d', 'C09.json')])
+    kf = os.path.join(VERIF, 'build', 'gen', 'parserloops.key')
+    if os.path.exists(out) and os.path.exists(side_path) and os.path.exists(kf) and open(kf).read() == key:
+        return False
     selftest()
-    a, loops = analyze(os.path.join(REPO, 'src', 'parser.c'))
+    a, loops = analyze(src)
+    lf, cf = listed_findings()
     v = ['(* GENERATED by tools/gen/gen_parserloops.py from /repo/src/parser.c (clang JSON AST) -- do not edit *)',
          'From Coq Require Import List String NArith.', 'From NV Require Import Front.RecoveryLoops.', 'Import ListNotations.',
          'Local Open Scope string_scope.', '']
@@ -806,29 +906,41 @@ def generate(b):
         if l['kind'] == 'counted':
             ents.append('  mkLoop %s %d %d LCounted false []' % (coq_str(l['fn']), l['ord'], l['line'] or 0))
         else:
-            ps = []
-            for k in ('PExit', 'PAdv', 'PAdvMaybe', 'PStuck', 'PUnknown'):
-                if l['paths'].get(k):
-                    ps.append(k)
+            ps = [k for k in ('PExit', 'PAdv', 'PAdvMaybe', 'PStuck', 'PUnknown') if l['paths'].get(k)]
             ents.append('  mkLoop %s %d %d LCursor %s [%s]' % (coq_str(l['fn']), l['ord'], l['line'] or 0,
                                                                'true' if l['guard_excl_eof'] else 'false', '; '.join(ps)))
     v.append(';\n'.join(ents))
     v.append('].')
     v.append('')
-    names = sorted(a.fns)
-    v.append('(* call graph of parser.c (callee lists restricted to functions defined there) *)')
-    v.append('Definition parser_calls : list (string * list string) := [')
+    names = list(a.fns)          # source order
+    cur = set(a.cursor)
+    v.append('(* calls between the cursor functions of parser.c that are NOT inside a depth-guarded region of the caller *)')
+    v.append('Definition parser_unguarded_calls : graph := [')
+    v.append(';\n'.join('  (%s, [%s])' % (coq_str(f), '; '.join(coq_str(c) for c in a.unguarded_calls[f] if c in cur))
+                        for f in names if f in cur))
+    v.append('].')
+    v.append('(* all calls between functions of parser.c *)')
+    v.append('Definition parser_calls : graph := [')
     v.append(';\n'.join('  (%s, [%s])' % (coq_str(f), '; '.join(coq_str(c) for c in a.calls[f])) for f in names))
     v.append('].')
     v.append('Definition depth_guarded : list string := [%s].' % '; '.join(coq_str(f) for f in a.guarded))
-    v.append('Definition cursor_functions : list string := [%s].' % '; '.join(coq_str(f) for f in sorted(a.cursor)))
+    v.append('Definition cursor_functions : list string := [%s].' % '; '.join(coq_str(f) for f in names if f in cur))
     v.append('Definition success_implies_advance : list string := [%s].' % '; '.join(coq_str(f) for f in a.subparsers if a.succ_adv[f]))
     v.append('')
-    changed = write_if_changed(os.path.join(GEN_DIR, 'ParserLoops.v'), '\n'.join(v))
-    # side file for the check: line ranges and stuck sub-parsers (not used by the proofs)
-    side = dict(loops=loops, guarded=a.guarded, calls=a.calls, cursor=sorted(a.cursor), succ_adv=a.succ_adv, tokpreds=a.tokpreds)
+    v.append('(* from known_findings.d/C09.json (status open): the loops / recursive functions listed as findings, in source order *)')
+    order = {(l['fn'], l['ord']): i for i, l in enumerate(loops)}
+    lf = sorted(set(lf), key=lambda k: order.get(k, 10 ** 9))
+    v.append('Definition listed_loop_findings : list (string * nat) := [%s].' % '; '.join('(%s, %d)' % (coq_str(f), o) for f, o in lf))
+    forder = {f: i for i, f in enumerate(names)}
+    cf = sorted(set(cf), key=lambda f: forder.get(f, 10 ** 9))
+    v.append('Definition listed_cycle_findings : list string := [%s].' % '; '.join(coq_str(f) for f in cf))
+    v.append('')
+    changed = write_if_changed(out, '\n'.join(v))
+    side = dict(loops=loops, guarded=a.guarded, calls=a.calls, unguarded_calls={f: [c for c in a.unguarded_calls[f] if c in cur] for f in names if f in cur},
+                cursor=sorted(a.cursor), succ_adv=a.succ_adv, tokpreds=a.tokpreds, listed_loops=lf, listed_cycles=cf)
     os.makedirs(os.path.join(VERIF, 'build', 'gen'), exist_ok=True)
-    json.dump(side, open(os.path.join(VERIF, 'build', 'gen', 'parserloops.json'), 'w'), indent=1)
+    json.dump(side, open(side_path, 'w'), indent=1)
+    open(kf, 'w').write(key)
     return changed
 
 
